@@ -113,7 +113,7 @@ InitWriter(S, r, o, ob, now) ==
   ELSE
   LET w == r.nextw
       ans == IF w <= Len(r.ws.ans) THEN r.ws.ans[w] ELSE "store"
-      r1 == Emit([r EXCEPT !.nextw = w + 1], [k |-> "new", w |-> w, o |-> o, ans |-> ans, ts |-> now])
+      r1 == Emit([r EXCEPT !.nextw = w + 1], [k |-> "new", w |-> w, o |-> o, ans |-> ans, ts |-> now, hint |-> ob.hint])
   IN  IF ans = "already" THEN <<r1, [ob EXCEPT !.st = "C"]>>
       ELSE IF ans = "abort" THEN <<r1, [ob EXCEPT !.st = "E"]>>
       ELSE LET fail == w \in SeqSet(r.ws.open_fail)
